@@ -13,7 +13,8 @@
 //         [<tydec>  ... ]      array header with element-type byte <tydec>, then the elements, then `]`
 // Output line:
 //   P <ret> <text-hex> C <count> S <rd> <nscanned> <cell>* [A <addr-hex>] E <eq>
-//   cells as the arg tokens, plus  a<tydec>:<len>  (array header)  and  R<num>:<hasdelta> (range header)
+//   cells as the arg tokens (booleans with their payload: T<val.T> F<val.T>, i.e. `T1` `F0`), plus
+//   a<tydec>:<len>  (array header)  and  R<num>:<hasdelta> (range header)
 //   after `C <count>` with count < 0 (syntax error reported) the line ends with `S -`.
 #include "common.h"
 #include <rtosc/rtosc.h>
@@ -82,7 +83,10 @@ static std::string cell(const rtosc_arg_val_t &a) {
     case 'm': snprintf(buf, sizeof buf, "m%02x%02x%02x%02x", a.val.m[0], a.val.m[1], a.val.m[2], a.val.m[3]); return buf;
     case 's': case 'S': return std::string(1, a.type) + ":" + (a.val.s ? hexs(a.val.s) : std::string("NULL"));
     case 'b': return std::string("b:") + hex(a.val.b.data, a.val.b.len > 0 ? (size_t)a.val.b.len : 0);
-    case 'T': case 'F': case 'N': case 'I': return std::string(1, a.type);
+    // booleans bit-complete: the payload val.T (F => 0, T => 1) is what rtosc_arg_val_to_int() and
+    // the range arithmetic read, so `T1` / `F0` is what a scanned boolean must look like
+    case 'T': case 'F': snprintf(buf, sizeof buf, "%c%d", a.type, (int)a.val.T); return buf;
+    case 'N': case 'I': return std::string(1, a.type);
     case 'a': snprintf(buf, sizeof buf, "a%d:%d", (int)(unsigned char)rtosc_av_arr_type(&a), rtosc_av_arr_len(&a)); return buf;
     case '-': snprintf(buf, sizeof buf, "R%d:%d", rtosc_av_rep_num(&a), rtosc_av_rep_has_delta(&a)); return buf;
     default: snprintf(buf, sizeof buf, "?%d", (int)(unsigned char)a.type); return buf;
